@@ -43,7 +43,7 @@ def miri_stage(ctx):
     os.makedirs(rundir)
     env = dict(os.environ)
     env["CARGO_NET_OFFLINE"] = "true"
-    env["MIRIFLAGS"] = "-Zmiri-disable-isolation"
+    env["MIRIFLAGS"] = "-Zmiri-disable-isolation -Zmiri-ignore-leaks"
     env.pop("RUSTFLAGS", None)
     base = ["cargo", "+nightly", "miri", "run", "--offline", "-p", crate, "--target-dir", os.path.join(target, "miri")]
     if spec.get("features"):
